@@ -28,6 +28,10 @@ def _own_nodes(fnode):
 def untyped_creators(fnode):
     out = []
     for n in _own_nodes(fnode):
+        # torch.finfo() / torch.iinfo() without an argument describe the process-wide DEFAULT dtype, not the dtype of the data at hand
+        if isinstance(n, ast.Call) and dotted(n.func) in ('torch.finfo', 'torch.iinfo') and not n.args and not n.keywords:
+            out.append(n)
+            continue
         if isinstance(n, ast.Call) and (dotted(n.func) or '').startswith('torch.') and (dotted(n.func) or '').split('.')[-1] in CREATORS:
             kws = {k.arg for k in n.keywords}
             if 'dtype' in kws or None in kws:
@@ -105,6 +109,10 @@ def rule_dtype_mod(repo, rid, modules, exempt):
                     res.inst({'function': f.fq, 'constructor': src(c)[:60], 'tabled': exempt[key]}, key)
                     continue
                 res.inst({'function': f.fq, 'constructor': src(c)[:60], 'tabled': None}, key)
+                if dotted(c.func) in ('torch.finfo', 'torch.iinfo'):
+                    res.add(Finding(rid, f, '`%s` without an argument is the machine epsilon of the process-wide DEFAULT dtype: thresholds derived from it are '
+                                    '5e8 times too coarse for float64 data under a float32 default (and too fine the other way round)' % src(c)[:40], node=c))
+                    continue
                 res.add(Finding(rid, f, '`%s` constructs a tensor without a dtype: it gets the process-wide default (float32) whatever the dtype of the problem, '
                                 'so float64 inputs lose precision there or raise a dtype mismatch' % src(c)[:70], node=c))
     res.inst({'functions scanned': n, 'tabled sites found': len(seen_ex)}, 'scan')
